@@ -48,30 +48,34 @@ impl Compression {
                 let mut i = File::open(src)?;
 
                 let o = File::create(dst)?;
-                let mut o = GzEncoder::new(o, flate2::Compression::default());
+                let result = (|| {
+                    let mut o = GzEncoder::new(o, flate2::Compression::default());
 
-                io::copy(&mut i, &mut o)?;
-                drop(o.finish()?);
-                drop(i); // needs to happen before remove_file call on Windows
+                    io::copy(&mut i, &mut o)?;
+                    drop(o.finish()?);
+                    drop(i); // needs to happen before remove_file call on Windows
 
-                #[cfg(feature = "verif_hooks")]
-                crate::verif_hooks::rotate_point(u32::MAX - 1)?;
-                fs::remove_file(src)
+                    #[cfg(feature = "verif_hooks")]
+                    crate::verif_hooks::rotate_point(u32::MAX - 1)?;
+                    fs::remove_file(src)
+                })();
+                discard_on_error(result, dst)
             }
             #[cfg(feature = "zstd")]
             Compression::Zstd => {
                 use std::fs::File;
                 let mut i = File::open(src)?;
-                let mut o = {
-                    let target = File::create(dst)?;
-                    zstd::Encoder::new(target, zstd::DEFAULT_COMPRESSION_LEVEL)?
-                };
-                io::copy(&mut i, &mut o)?;
-                drop(o.finish()?);
-                drop(i);
-                #[cfg(feature = "verif_hooks")]
-                crate::verif_hooks::rotate_point(u32::MAX - 1)?;
-                fs::remove_file(src)
+                let target = File::create(dst)?;
+                let result = (|| {
+                    let mut o = zstd::Encoder::new(target, zstd::DEFAULT_COMPRESSION_LEVEL)?;
+                    io::copy(&mut i, &mut o)?;
+                    drop(o.finish()?);
+                    drop(i);
+                    #[cfg(feature = "verif_hooks")]
+                    crate::verif_hooks::rotate_point(u32::MAX - 1)?;
+                    fs::remove_file(src)
+                })();
+                discard_on_error(result, dst)
             }
         }
     }
@@ -174,6 +178,17 @@ impl Roll for FixedWindowRoller {
 
         Ok(())
     }
+}
+
+/// The source of a failed compression stays where it is, so the archive written so far (partial,
+/// or complete when only the removal of the source failed) must not stay as well: the same
+/// records would otherwise be archived twice.
+#[cfg(any(feature = "gzip", feature = "zstd"))]
+fn discard_on_error(result: io::Result<()>, dst: &str) -> io::Result<()> {
+    if result.is_err() {
+        let _ = fs::remove_file(dst);
+    }
+    result
 }
 
 fn move_file<P, Q>(src: P, dst: Q) -> io::Result<()>
